@@ -1318,6 +1318,61 @@ def inline_predicate(fb, call):
     return substitute(e, {p["decl"]: a for p, a in zip(g.params, args)})
 
 
+def predicate_summary(fb, call, polarity):
+    """Atoms that hold whenever a call of a multi-statement in-repo predicate (free / static, bool, no loops, parameters not reassigned)
+    returns `polarity`: what every path returning that value has in common — its branch outcomes and the conjuncts of the returned
+    expression — with the parameters replaced by the call's arguments.  [] when the callee is not of that shape."""
+    if fb is None or call.get("k") != "call" or call.get("op") is not None:
+        return []
+    if "obj" in call and not (call.get("callee") or {}).get("static"):
+        return []
+    g = fb.resolve_call(call)
+    if g is None or g.body is None or not g.cfg_raw or (g.raw.get("rett") or {}).get("k") != "bool":
+        return []
+    args = call.get("args", [])
+    if len(args) != len(g.params):
+        return []
+    pd = {q["decl"] for q in g.params}
+    for x in g.nodes():
+        if x.get("k") in ("while", "for", "do", "rangefor", "switch"):
+            return []
+        if x.get("k") in ("assign", "cassign") and lvalue_root(x["l"]) in pd:
+            return []
+    from . import paths as _paths
+    mapping = {q["decl"]: a for q, a in zip(g.params, args)}
+    common = None
+    n = 0
+    for pth in _paths.enumerate_paths(g):
+        if pth.end != "exit":
+            continue
+        r = pth.returns()
+        if r is None or not isinstance(r.get("e"), dict):
+            continue
+        cv = const_value(strip_all_casts(pth.value_of(r["e"], before=r["id"])))
+        if cv is not None and bool(cv) != polarity:
+            continue
+        atoms = list(pth.atoms)
+        if cv is None:
+            atoms += conjuncts(r["e"], polarity, g)
+        keyed = {}
+        for a in atoms:
+            nodes = [a[4], a[5]] if a[0] == "cmp" else [a[3]]
+            if any(y.get("k") == "ref" and y.get("dk") == "local" for nd in nodes for y in walk(expand(g, nd))):
+                continue  # speaks about a local of the predicate
+            if a[0] == "cmp":
+                l2, r2 = substitute(expand(g, a[4]), mapping), substitute(expand(g, a[5]), mapping)
+                b = ("cmp", canon(l2), a[2], canon(r2), l2, r2)
+            else:
+                n2 = substitute(expand(g, a[3]), mapping)
+                b = ("truth", canon(n2), a[2], n2)
+            keyed[b[:3] if b[0] == "truth" else b[:4]] = b
+        common = keyed if common is None else {k: v for k, v in common.items() if k in keyed}
+        n += 1
+        if n > 40:
+            return []
+    return list((common or {}).values())
+
+
 def current_definition(fn, ref):
     """For a use `ref` of a local with exactly one definition: that definition's initialiser, provided nothing it
     reads (locals, parameters) is assigned on any path from the definition to this use — so the initialiser still
@@ -1619,6 +1674,10 @@ def conjuncts(e, polarity=True, fn=None, _depth=0):
                 y = inline_lambda_call(fn, x)
             if y is not None:
                 return [atom_of(e, polarity)] + conjuncts(y, polarity, fn, _depth + 1)
+            # a predicate with several statements (early returns): what all its paths with this result have in common
+            ps = predicate_summary(getattr(fn, "fb", None), x, polarity)
+            if ps:
+                return [atom_of(e, polarity)] + ps
     return [atom_of(e, polarity)]
 
 
